@@ -2,6 +2,7 @@ package props
 
 import (
 	"go/token"
+	"go/types"
 	"sort"
 
 	"mrocheck/an"
@@ -291,4 +292,140 @@ func ruleQ7(c *an.Ctx) {
 		}
 	}
 	c.Floor("Q7", "loops printing bindings in BindStms.format", n, 1)
+}
+
+// Q8-Q10 (round 4, three genuine defects in comment handling): "no comment text is lost … each
+// comment is kept exactly once and the output is a fixed point".
+//
+// Q8  A node synthesised by the formatter does not carry the comments of the node being printed.
+//     CallStm.format builds a `using (...)` block for the keyword modifiers; giving it the call's
+//     whole AstNode (`Node: self.Node`) copies the call's comments, which are then printed by the
+//     call, by the block and by every synthesised binding (4-6 times; not a fixed point).  In a
+//     method of package syntax, the AstNode of the receiver must not be stored as the Node of a
+//     freshly allocated AST node.
+// Q9  Sibling agreement of the two retain formatters: each loop that prints retained elements calls
+//     printComments (RetainParams.format did, PipelineRetains.format did not: a comment before a
+//     retained reference was lost).
+// Q10 Wherever the formatter decides by `len(n.Comments)` whether an element has comments to
+//     print, it also looks at `n.scopeComments` of the same node (a comment followed by a blank
+//     line is a scope comment; ArrayExp/MapExp.format dropped it).
+func ruleQ8Q10(c *an.Ctx) {
+	p := c.P
+	nodeT := p.Named(pkgSyntax, "AstNode")
+	comments := p.Field(pkgSyntax, "AstNode", "Comments")
+	scope := p.Field(pkgSyntax, "AstNode", "scopeComments")
+	printComments := p.Func(pkgSyntax, "(*printer).printComments")
+	if nodeT == nil || comments == nil || scope == nil || printComments == nil {
+		c.Info("Q8", "anchor(AstNode, printComments)", 0, "not found: not decided")
+		return
+	}
+	isNodeField := func(v ssa.Value) (ssa.Value, bool) {
+		fa, ok := v.(*ssa.FieldAddr)
+		if !ok {
+			return nil, false
+		}
+		_, f := an.FieldOfAddr(fa)
+		if f == nil || f.Name() != "Node" || !types.Identical(f.Type(), nodeT) {
+			return nil, false
+		}
+		return fa.X, true
+	}
+	n8 := 0
+	for _, fn := range p.FuncsOf(pkgSyntax) {
+		if fn.Signature.Recv() == nil || len(fn.Params) == 0 || fn.Name() != "format" {
+			continue
+		}
+		recv := ssa.Value(fn.Params[0])
+		an.Instrs(fn, func(in ssa.Instruction) {
+			st, ok := in.(*ssa.Store)
+			if !ok {
+				return
+			}
+			dst, ok := isNodeField(st.Addr)
+			if !ok {
+				return
+			}
+			if _, fresh := an.RootOf(dst).(*ssa.Alloc); !fresh {
+				return
+			}
+			ld, ok := st.Val.(*ssa.UnOp)
+			if !ok || ld.Op != token.MUL {
+				return
+			}
+			src, ok := isNodeField(ld.X)
+			if !ok {
+				return
+			}
+			n8++
+			own := an.Strip(src) == recv || an.Path(src) == an.Path(recv) // the receiver, also when a closure captures it (cell)
+			c.Check("Q8", "synthesised-node-does-not-copy-the-printed-node's-comments@"+an.FnName(fn), st.Pos(), !own,
+				"a node created by the formatter is given the whole AstNode of the node being printed, comments included: the comments are printed again for the synthesised node (and for every node made from it), several times over and with a different indent, so the output is not a fixed point")
+		})
+	}
+	if n8 == 0 {
+		c.Pass("Q8", "no-node-copies-in-format-methods", 0, "no format method stores an existing AstNode into a node it creates")
+	}
+	// Q9
+	n9 := 0
+	for _, name := range []string{"(*PipelineRetains).format", "(*RetainParams).format"} {
+		fn := p.Func(pkgSyntax, name)
+		if fn == nil {
+			continue
+		}
+		for _, m := range familyOf(p, fn, 1) {
+			for h, body := range naturalLoops(m) {
+				n9++
+				has := false
+				for b := range body {
+					for _, in := range b.Instrs {
+						if an.CalleeIs(in, printComments) {
+							has = true
+						}
+					}
+				}
+				c.Check("Q9", "retained-elements-print-their-comments@"+name, h.Instrs[0].Pos(), has,
+					"the loop that prints the retained elements never calls printComments: a comment written before a retained reference is lost")
+			}
+		}
+	}
+	c.Floor("Q9", "loops in the retain formatters", n9, 2)
+	// Q10
+	n10 := 0
+	for _, fn := range p.FuncsOf(pkgSyntax) {
+		if fn.Name() != "format" || fn.Signature.Recv() == nil {
+			continue
+		}
+		var commentBases, scopeBases []string
+		var pos []ssa.Instruction
+		an.Instrs(fn, func(in ssa.Instruction) {
+			v, isVal := in.(ssa.Value)
+			if !isVal {
+				return
+			}
+			args, ok := an.IsBuiltinCall(v, "len")
+			if !ok || len(args) != 1 {
+				return
+			}
+			base, f := an.FieldLoad(an.Strip(args[0]))
+			if f == comments {
+				commentBases = append(commentBases, an.StablePath(base))
+				pos = append(pos, in)
+			}
+			if f == scope {
+				scopeBases = append(scopeBases, an.StablePath(base))
+			}
+		})
+		for i, b := range commentBases {
+			n10++
+			has := false
+			for _, s := range scopeBases {
+				if s == b {
+					has = true
+				}
+			}
+			c.Check("Q10", "scope-comments-considered-with-comments("+b+")@"+an.FnName(fn), pos[i].Pos(), has,
+				"the formatter looks at len(Comments) of this node to decide whether there is anything to print but never at its scopeComments: a comment that is followed by a blank line (a scope comment) on this element is dropped")
+		}
+	}
+	c.Floor("Q10", "len(node.Comments) tests in format methods", n10, 1)
 }
